@@ -97,7 +97,14 @@ def shard(ctx, arg):
     rng = ctx.rng("c16", idx)
     for k in range(count):
         classes = R.gen_program(rng, nclasses=rng.choice([2, 3, 3, 4, 5, 6]))
-        single = W.write_dex(R.to_model(classes))
+        # string_ids only store offsets: the string data items of a file may lie in any order (each file of a split gets its own order)
+        if rng.random() < 0.3:
+            srng = __import__("random").Random(rng.getrandbits(32))
+            wopts = lambda: {"string_data_order": __import__("random").Random(srng.getrandbits(32))}
+            ctx.count("programs_with_string_data_in_another_order")
+        else:
+            wopts = lambda: None
+        single = W.write_dex(R.to_model(classes), wopts())
         try:
             an0, _ = analyse([single])
             base = dump(an0)
@@ -112,7 +119,7 @@ def shard(ctx, arg):
             if len(orders) > (6 if ctx.quick else 24):
                 rng.shuffle(orders)
                 orders = orders[: (6 if ctx.quick else 24)]
-            datas = [W.write_dex(R.to_model([classes[i] for i in blk])) for blk in p]
+            datas = [W.write_dex(R.to_model([classes[i] for i in blk]), wopts()) for blk in p]
             for order in orders:
                 ctx.ev()
                 ctx.count("split_analyses")
